@@ -305,7 +305,7 @@ def run(ctx):
         "in-process entry points glue.parse_emboss_file / header_generator.generate_header / error.format_errors; embossc CLI for a sample",
     ]
     nshards = 16
-    per = ctx.pick(260, 5000)
+    per = ctx.pick(260, 3000)
     cli_n = ctx.pick(2, 12)
     ctx.stats = vlib.run_shards(shard, nshards, seed=ctx.seed, n=per, cli_n=cli_n, tier=ctx.tier)
     # literal reproducers of recorded known findings are re-run every time
